@@ -3,6 +3,7 @@
 
    The ROS 2 db3 half of the property (Db3ToMCAP) depends on SQLite and the file system; SQLite is abstracted as row
    lists in theories/Db3.v, the theorems are in properties/C18_db3.v (proofs: theories/Db3Facts.v). *)
+From Mcap Require ConstsTie LayoutTie. (* regenerated ties to /repo's source that this property's model relies on *)
 From Coq Require Import List NArith ZArith Bool.
 From Coq.Strings Require Import Byte.
 From Mcap Require Import Bytes GoSem Records Writer Lexer Bag BagFacts.
